@@ -59,8 +59,10 @@ def scenario_slow(args):
 
 def scenario_cross(args):
     """cross traffic: a relay waits for its own NETWORK_ACK (which never comes) while one for a descendant passes through it"""
-    a_src, a_dst, b_src, b_dst, broken, delay_us, seed, jitter = args
-    nodes = [dict(addr=a, kind="net") for a in CHAIN]
+    a_src, a_dst, b_src, b_dst, broken, delay_us, seed, jitter = args[:8]
+    mc_off = len(args) > 8 and args[8]          # the waiting relay runs with allow_multicast off (its other relaying branch)
+    nodes = [dict(addr=a, kind="net", **(dict(opts={"allow_multicast": False}, reassign=True) if (mc_off and a == b_src) else {}))
+             for a in CHAIN]
     name = {nd["addr"]: "n%d" % i for i, nd in enumerate(nodes)}
     rules = [dict(src=name[broken], kind="user", fate="P", to=b_dst)]
     ns = net.NetSim(nodes, seed=seed, jitter=jitter, gap_ms=400,
@@ -72,7 +74,7 @@ def scenario_cross(args):
                name[b_src]: [(1_000_000 + delay_us * 1000, lambda ns_, nm: jb["fn"](ns_, nm, jb))]}
     tr = ns.run([], scripts=scripts)
     tr["meta"] = dict(job=[oct(b_src), oct(b_dst), 65, 5], fault=["cross-traffic", oct(a_src) + "->" + oct(a_dst)], tx_timeout=25,
-                      route_timeout=75, seed=seed, jitter=jitter, hops=len(route(b_src, b_dst)) - 1, delay_us=delay_us)
+                      route_timeout=75, seed=seed, jitter=jitter, hops=len(route(b_src, b_dst)) - 1, delay_us=delay_us, mc_off=bool(mc_off))
     return tr
 
 
@@ -110,7 +112,8 @@ def run(chk):
     quick = chk.tier == "quick"
     slow = [(0o11, 0o2, 65, nu, na, 25, rt, chk.seed * 131 + i, 3000)
             for i, (nu, na, rt) in enumerate([(nu, na, rt) for nu in (6, 8, 10, 12) for na in (0, 4, 6, 8, 10) for rt in (40, 75)])]
-    cross = [(0o11, 0o2, 0o1, 0o3, 0, d, chk.seed * 137 + i, 3000) for i, d in enumerate(range(250, 6000, 250 if quick else 100))]
+    cross = [(0o11, 0o2, 0o1, 0o3, 0, d, chk.seed * 137 + i, 3000, off) for off in (False, True)
+             for i, d in enumerate(range(250, 6000, 250 if quick else 100))]
     with ProcessPoolExecutor(16) as ex:
         traces = list(ex.map(scenario, jobs, chunksize=4)) + list(ex.map(scenario_slow, slow, chunksize=2)) \
             + list(ex.map(scenario_cross, cross, chunksize=2))
